@@ -18,15 +18,17 @@ import (
 // and the distribution half of C18 (events) after every BeginBlock.
 type distMonitor struct {
 	kernel.NopMonitor
-	Predictive bool // fault-free profile: every destination must be settled (< 1 unit owed) after every block
-	CheckC03   bool
-	CheckC04   bool
-	CheckC18   bool
-	model      *models.DistModel
-	pre        kernel.Balances
-	mainAddr   string
-	evals      int64
-	faultsSeen bool
+	Predictive   bool // fault-free profile: every destination must be settled (< 1 unit owed) after every block
+	CheckC03     bool
+	CheckC04     bool
+	CheckC18     bool
+	model        *models.DistModel
+	pre          kernel.Balances
+	preSpendable map[string]sdk.Coins
+	preLocked    map[string]sdk.Coins
+	mainAddr     string
+	evals        int64
+	faultsSeen   bool
 	// Receipts per destination key (cumulative, whole coins), for twin comparisons (C14).
 	shape string
 }
@@ -81,6 +83,7 @@ func coinsToInts(cs sdk.Coins) map[string]*big.Int {
 
 func (m *distMonitor) BeforeBlock(r *kernel.Run, b *kernel.Block) {
 	m.pre = r.Chain.AllBalances()
+	m.preSpendable = map[string]sdk.Coins{}
 	// a governance update may have replaced the configuration
 	p := r.Chain.App.CfedistributorKeeper.GetParams(r.Chain.Ctx())
 	m.model.SetConfig(DistModelSubs(p))
@@ -140,7 +143,14 @@ func (m *distMonitor) AfterBegin(r *kernel.Run, resp abci.ResponseBeginBlock) {
 		if a.Addr == "" {
 			continue
 		}
-		balances[a.Addr] = coinsToAmt(m.pre[a.Addr])
+		// what the account holds and can spend (locked vesting coins cannot be taken)
+		if _, ok := m.preSpendable[a.Addr]; !ok {
+			ad, err := sdk.AccAddressFromBech32(a.Addr)
+			if err == nil {
+				m.preSpendable[a.Addr] = m.spendableAt(r, ad)
+			}
+		}
+		balances[a.Addr] = coinsToAmt(m.preSpendable[a.Addr])
 	}
 	if !m.Predictive {
 		// under faults a sweep that did not happen is an environment event: observe it
@@ -409,4 +419,22 @@ func (m *distMonitor) checkMintEvent(r *kernel.Run, evs []abci.Event, mints []tr
 	if minted.IsPositive() {
 		r.Stats.Inc("probe.mint_event_positive")
 	}
+}
+
+// spendableAt: balance before the block minus what is locked at this block's time (vesting schedules move with the clock).
+func (m *distMonitor) spendableAt(r *kernel.Run, addr sdk.AccAddress) sdk.Coins {
+	bal := m.pre[addr.String()]
+	locked := r.Chain.App.BankKeeper.LockedCoins(r.Chain.Ctx(), addr)
+	sp, neg := bal.SafeSub(locked...)
+	if neg {
+		out := sdk.NewCoins()
+		for _, c := range bal {
+			l := locked.AmountOf(c.Denom)
+			if c.Amount.GT(l) {
+				out = out.Add(sdk.NewCoin(c.Denom, c.Amount.Sub(l)))
+			}
+		}
+		return out
+	}
+	return sp
 }
